@@ -121,6 +121,11 @@ pub fn conv_case_for(prop: &'static str, t: &[u8], uri_ok: bool, uriref_ok: bool
 			chk("UriRef::as_iri", ur.as_iri().map(|x| x.as_bytes()), has_scheme, true);
 			chk("<&Uri>::try_from(&UriRef)", <&Uri>::try_from(ur).ok().map(|x| x.as_bytes()), has_scheme, true);
 			chk("<&Iri>::try_from(&UriRef)", <&Iri>::try_from(ur).ok().map(|x| x.as_bytes()), has_scheme, true);
+			chk("AsRef<IriRef> for UriRef", Some(AsRef::<IriRef>::as_ref(ur).as_bytes()), true, true);
+			{
+				let ob = UriRefBuf::new(t.to_vec()).ok().expect("valid");
+				chk("AsRef<IriRef> for UriRefBuf", Some(AsRef::<IriRef>::as_ref(&ob).as_bytes()), true, false);
+			}
 			let mk_u = || UriRefBuf::new(t.to_vec()).ok().expect("valid");
 			owned_chk("UriRefBuf::into_iri_ref", Ok(mk_u().into_iri_ref().into_bytes()), true, &mut ());
 			owned_chk("IriRefBuf::from(UriRefBuf)", Ok(IriRefBuf::from(mk_u()).into_bytes()), true, &mut ());
@@ -138,6 +143,13 @@ pub fn conv_case_for(prop: &'static str, t: &[u8], uri_ok: bool, uriref_ok: bool
 			chk("Uri::as_uri_ref", Some(u.as_uri_ref().as_bytes()), true, true);
 			chk("Uri::as_iri", Some(u.as_iri().as_bytes()), true, true);
 			chk("Uri::as_iri_ref", Some(u.as_iri_ref().as_bytes()), true, true);
+			chk("AsRef<Iri> for Uri", Some(AsRef::<Iri>::as_ref(u).as_bytes()), true, true);
+			chk("AsRef<IriRef> for Uri", Some(AsRef::<IriRef>::as_ref(u).as_bytes()), true, true);
+			{
+				let ob = UriBuf::new(t.to_vec()).ok().expect("valid");
+				chk("AsRef<Iri> for UriBuf", Some(AsRef::<Iri>::as_ref(&ob).as_bytes()), true, false);
+				chk("AsRef<IriRef> for UriBuf", Some(AsRef::<IriRef>::as_ref(&ob).as_bytes()), true, false);
+			}
 			let mk_u = || UriBuf::new(t.to_vec()).ok().expect("valid");
 			owned_chk("UriBuf::into_uri_ref", Ok(mk_u().into_uri_ref().into_bytes()), true, &mut ());
 			owned_chk("UriRefBuf::from(UriBuf)", Ok(UriRefBuf::from(mk_u()).into_bytes()), true, &mut ());
